@@ -327,19 +327,25 @@ class Facts:
         self.adts = {}
         self.dups = {}
         t0 = time.time()
+        import gc, pickle
+        gc.disable()   # the fact base is one big acyclic structure; the cyclic GC only costs time while loading it
         for fn in ('rnacos-lib.json', 'rnacos-bin.json'):
             p = os.path.join(dirpath, fn)
-            mp = p + '.marshal'
+            mp = p + '.pkl'
+            d = None
             if os.path.exists(mp) and os.path.getmtime(mp) >= os.path.getmtime(p):
-                with open(mp, 'rb') as f:
-                    d = marshal.load(f)
-            else:
+                try:
+                    with open(mp, 'rb') as f:
+                        d = pickle.load(f)
+                except Exception:
+                    d = None
+            if d is None:
                 with open(p) as f:
                     d = json.load(f)
                 try:
                     tmp = mp + '.%d' % os.getpid()
                     with open(tmp, 'wb') as f:
-                        marshal.dump(d, f)
+                        pickle.dump(d, f, protocol=4)
                     os.replace(tmp, mp)
                 except Exception:
                     pass
@@ -356,6 +362,7 @@ class Facts:
             if b.parent:
                 self.children.setdefault(b.parent, []).append(b.name)
         self.load_s = time.time() - t0
+        gc.freeze()
         self._by_trait = None
 
     def get(self, name):
